@@ -145,6 +145,7 @@ struct State {
   uint64_t evaluations = 0, violations = 0;
   std::map<std::string, uint64_t> counters;
   std::unordered_set<uint64_t> classes, nontrivial_cases;
+  unsigned case_budget = 0;   // if non-zero, set_case() re-arms the CPU-time watchdog with this many seconds for every case
   std::vector<std::string> samples;
   std::unordered_map<std::string, unsigned> viol_per_sig;
   // crash capture: preformatted line for the current case
@@ -172,6 +173,7 @@ inline void set_case(const Case& c) {
   s.curlen = 0;
   memcpy(s.cur, h.data(), n);
   s.curlen = n;
+  if (s.case_budget) { struct itimerval tv; memset(&tv, 0, sizeof tv); tv.it_value.tv_sec = s.case_budget; setitimer(ITIMER_PROF, &tv, nullptr); }
   // under tools that end the process without running our handlers (valgrind --exit-on-first-error) every case is logged up front
   static const bool each = getenv("VERIF_LOG_EACH_CASE") != nullptr;
   if (each && s.fd >= 0) { const char* a = "{\"t\":\"crash\",\"case\":\""; (void)!::write(s.fd, a, strlen(a)); (void)!::write(s.fd, s.cur, s.curlen); (void)!::write(s.fd, "\"}\n", 3); }
